@@ -242,4 +242,10 @@ def r19_text_layouts(ctx):
     ctx.require(ok, 'R19.2', 'read(binary with stray bytes)', w, f'{outs}', construct=f'{rd.qname}::binary-stray')
 
 
-RULES = [('R19-roundtrip', r19_roundtrip), ('R19-text', r19_text_layouts)]
+def r19_queue(ctx):
+    """read_syx_file feeds the whole file to one Parser before retrieving anything: its queues must be unbounded."""
+    from . import parsershape
+    parsershape.check_parser_init(ctx, 'R19.4')
+
+
+RULES = [('R19-roundtrip', r19_roundtrip), ('R19-text', r19_text_layouts), ('R19.4', r19_queue)]
